@@ -63,6 +63,13 @@ class Sim:
             if attempt in node[2] or not node[2]:
                 return ("err", node[1], f"{path}#{attempt}")
             return ("ok", 100 + attempt)
+        if kind == "none":
+            return ("ok", None)
+        if kind == "twice":
+            r = self.call(node[2], f"{path}.0")
+            if r[0] != "ok":
+                return r
+            return ("ok", node[1] + 2 * (r[1] or 0))
         if kind == "par":
             tot = node[1]
             for d in node[3]:
@@ -75,14 +82,14 @@ class Sim:
                 r = self.call(ch, f"{path}.{i}")
                 if r[0] != "ok":
                     return r
-                total += r[1]
+                total += r[1] or 0
             return ("ok", total)
         if kind == "group":
             res = [self.call(ch, f"{path}.{i}") for i, ch in enumerate(node[2])]
             for r in res:
                 if r[0] != "ok":
                     return ("err-any", [x for x in res if x[0] != "ok"])
-            return ("ok", total + sum(r[1] for r in res))
+            return ("ok", total + sum((r[1] or 0) for r in res))
         raise ValueError(node)
 
 
@@ -93,6 +100,7 @@ def prog_strategy(flavour: str):
     argd = st.dictionaries(st.sampled_from(["a", "b", "c"]), st.integers(1, 9), max_size=3)
     leaves = [
         st.builds(lambda v: ["ret", v], st.integers(0, 9)),
+        st.just(["none"]),
         st.builds(lambda k, a: ["raise", k, a], st.sampled_from(["retry", "retriable", "value", "app"]), attempts),
     ]
     if flavour != "direct":
@@ -100,12 +108,20 @@ def prog_strategy(flavour: str):
         leaves.append(st.builds(lambda b, common, calls: ["par", b, common, calls], st.integers(0, 9), st.dictionaries(st.sampled_from(["a", "b", "c"]), st.integers(1, 9), min_size=1, max_size=2), st.lists(argd, min_size=1, max_size=3)))
     leaf = st.one_of(*leaves)
     kinds = ["sum"] if flavour == "direct" else ["sum", "group"]
-    return st.recursive(leaf, lambda ch: st.builds(lambda kind, base, kids: [kind, base, kids], st.sampled_from(kinds), st.integers(0, 9), st.lists(ch, min_size=1, max_size=2)), max_leaves=4)
+    def extend(ch):
+        return st.one_of(
+            st.builds(lambda kind, base, kids: [kind, base, kids], st.sampled_from(kinds), st.integers(0, 9), st.lists(ch, min_size=1, max_size=3)),
+            st.builds(lambda base, kid: ["twice", base, kid], st.integers(0, 9), ch),
+        )
+
+    return st.recursive(leaf, extend, max_leaves=4)
 
 
 def has(node: Any, kind: str) -> bool:
     if node[0] == kind:
         return True
+    if node[0] == "twice":
+        return has(node[2], kind)
     return node[0] in ("sum", "group") and any(has(c, kind) for c in node[2])
 
 
@@ -116,6 +132,8 @@ def group_size(node: Any) -> int:
         return max(len(node[2]), max((group_size(c) for c in node[2]), default=0))
     if node[0] == "sum":
         return max((group_size(c) for c in node[2]), default=0)
+    if node[0] == "twice":
+        return group_size(node[2])
     return 0
 
 
@@ -125,6 +143,8 @@ def raise_under_sum_only(node: Any) -> bool:
         return not any(has(c, "raise") for c in node[2])
     if node[0] == "sum":
         return all(raise_under_sum_only(c) for c in node[2])
+    if node[0] == "twice":
+        return raise_under_sum_only(node[2])
     return True
 
 
@@ -135,8 +155,11 @@ def normalise(outcome: Any) -> Any:
     return ("err", type(exc).__name__, [str(a) if not isinstance(a, (int, float, type(None), bool)) else a for a in exc.args])
 
 
+BATCH = {"n": 100}  # parallel_batch_size used by register(); drawn per example
+
+
 def register(app: Any, flavour: str, max_retries: int, retry_for: tuple[str, ...]) -> Any:
-    opts = dict(max_retries=max_retries)
+    opts = dict(max_retries=max_retries, parallel_batch_size=BATCH["n"])
     classes = tuple(exc_class(k) for k in retry_for)
     if classes:
         opts["retry_for"] = classes
@@ -146,7 +169,7 @@ def register(app: Any, flavour: str, max_retries: int, retry_for: tuple[str, ...
         tasks.HOOKS["dprog_call"] = wrapper
         app.task(tasks.prog, **opts)
         return wrapper
-    app.task(tasks.opt3)
+    app.task(tasks.opt3, parallel_batch_size=BATCH["n"])
     return app.task(tasks.prog, **opts)
 
 
@@ -230,10 +253,11 @@ def shard(seed: int, examples: int, flavour: str, known: list[str]) -> dict:
 
     @hypothesis.seed(seed)
     @make_settings(examples)
-    @given(node=prog_strategy(flavour), max_retries=st.integers(0, 3), rf=st.sampled_from(sorted(RETRY_FOR)))
-    def prop(node, max_retries, rf):
+    @given(node=prog_strategy(flavour), max_retries=st.integers(0, 3), rf=st.sampled_from(sorted(RETRY_FOR)), batch=st.sampled_from([100, 100, 2]))
+    def prop(node, max_retries, rf, batch):
         retry_for = RETRY_FOR[rf]
-        rep.holder["case"] = {"program": node, "flavour": flavour, "max_retries": max_retries, "retry_for": rf}
+        BATCH["n"] = batch
+        rep.holder["case"] = {"program": node, "flavour": flavour, "max_retries": max_retries, "retry_for": rf, "parallel_batch_size": batch}
         sim = Sim(max_retries, retry_for)
         exp = sim.call(node, "r")
         s_out, s_runs = run_sync(node, flavour, max_retries, retry_for)
@@ -247,8 +271,8 @@ def shard(seed: int, examples: int, flavour: str, known: list[str]) -> dict:
                 return
             outs[kind] = (d_out, d_runs)
         nt = (has(node, "sum") or has(node, "group")) and has(node, "raise") or group_size(node) >= 2
-        part.case(key=(node, flavour, max_retries, rf), nontrivial=nt, classes=[f"flavour_{flavour}", f"retries{max_retries}", f"retry_for_{rf}", "has_raise" if has(node, "raise") else "pure",
-                  "nested" if node[0] not in ("ret", "raise", "par") else "leaf", "group" if has(node, "group") else "no_group", "common_args" if has(node, "par") else "no_common_args"],
+        part.case(key=(node, flavour, max_retries, rf, batch), nontrivial=nt, classes=[f"flavour_{flavour}", f"retries{max_retries}", f"retry_for_{rf}", "has_raise" if has(node, "raise") else "pure",
+                  "nested" if node[0] not in ("ret", "raise", "par") else "leaf", "group" if has(node, "group") else "no_group", "common_args" if has(node, "par") else "no_common_args", f"batch{batch}", "reads_twice" if has(node, "twice") else "reads_once"],
                   sample={**rep.holder["case"], "expected": str(exp)[:80], "runs": s_runs})
         deterministic = raise_under_sum_only(node)
         # 1. denotation (only where the program's outcome does not depend on completion order inside a group)
@@ -379,6 +403,7 @@ def replay(case: dict) -> int:
             inst.uninstall()
             cinst.uninstall()
     flavour, mr, rf = c["flavour"], c["max_retries"], RETRY_FOR[c["retry_for"]]
+    BATCH["n"] = c.get("parallel_batch_size", 100)
     sim = Sim(mr, rf)
     print("denotation:", sim.call(c["program"], "r"), sim.runs)
     s_out, s_runs = run_sync(c["program"], flavour, mr, rf)
